@@ -214,16 +214,18 @@ def r4(R4, cfg, F):
         st = [c for c in b.calls() if c.callee and c.callee.best == 'hot_reloading::HotReloader::start']
         ok = len(ms) == 1 and len(cf) == 1 and len(st) == 1
         if ok:
-            # start is reachable only after make_source gave Some and configure gave Ok: both are `?` on Options
-            brs = [c for c in b.calls() if c.callee and c.callee.defp == 'std::ops::Try::branch']
-            ok = len(brs) == 2
-            for br in brs:
-                sw = b.primary_switch(br.dest['l'])
-                cont = b.variant_edge(sw, 0) if sw is not None else None
-                ok = ok and cont is not None and st[0].bb not in b.reachable([0], removed_edges=[(sw, cont)])
-            r0 = b.call_roots(brs[0].args[0]) if brs else []
-            r1_ = b.origins(brs[1].args[0], passthrough=common.make_pt(r'Result::<T, E>::(ok|map_err)$')) if len(brs) == 2 else set()
-            ok = ok and [x.callee.defp for x in r0] == ['source::Source::make_source'] and ('call', cf[0].bb) in r1_
+            # start is reachable only when make_source gave Some and configure_hot_reloading gave Ok (tested directly, or
+            # as the Some of `.map_err(..).ok()`): guard set of the call, on the normal form
+            g = [(common.deep_path(b, x[3][1]), common.guard_variant(b, x)) for x in common.guards_of(b, st[0].bb) if x[3][0] == 'discr']
+            ok1 = (['call@bb%d' % ms[0].bb], 1) in g
+            ok2 = (['call@bb%d' % cf[0].bb], 0) in g
+            pt = common.make_pt(r'Result::<T, E>::(ok|map_err)$')
+            for path, v in g:
+                if v == 1 and path and len(path) == 1 and path[0].startswith('call@bb') and path[0] != 'call@bb%d' % ms[0].bb:
+                    site = [c for c in b.calls() if 'call@bb%d' % c.bb == path[0]]
+                    if site and site[0].callee and site[0].callee.name == 'ok' and ('call', cf[0].bb) in b.origins(site[0].args[0], passthrough=pt):
+                        ok2 = True
+            ok = ok1 and ok2
         R4.check(ok, cfg, b.path, 'no-reloader-when-source-refuses', 'HotReloader::make must return None when make_source gives None or configure_hot_reloading fails', b.loc())
     # the reloader field is assigned only by constructors
     for fb in F.fn_bodies():
